@@ -198,7 +198,7 @@ func (s *Set) Complement(endSymbol rune) *Set {
 		a = a.Forward
 		b = b.Forward
 	}
-	if pre < endSymbol {
+	if a.Backward.End < endSymbol {
 		node := Node{
 			Backward: b,
 			Begin:    pre,
@@ -206,6 +206,9 @@ func (s *Set) Complement(endSymbol rune) *Set {
 		}
 		b.Forward = &node
 		b = b.Forward
+	}
+	if b == &set.Head {
+		return set
 	}
 	b.Forward = &set.Tail
 	set.Tail.Backward = b
